@@ -86,3 +86,41 @@ Proof.
 Qed.
 
 End Msg.
+
+(** ** any arguments of the [simple] universe: each {} is replaced by the documented notation of the value *)
+From BL Require Import Mser.EncodeProofs Render.ToStringProofs.
+Section MsgAny.
+Variable ft : aty -> N -> bytes.
+Variable cfg : timecfg.
+
+Record targ := mkArg { a_ty : ty; a_val : val }.
+Definition targ_ok sp (a : targ) : Prop :=
+  wt (a_ty a) (a_val a) = true /\ simple false (a_ty a) = true /\ ty_ok (a_ty a) = true /\ short (a_val a) = true /\ plain sp (a_ty a) /\ (depth (a_ty a) <= 2048)%nat.
+Definition targs_tags (l : list targ) : bytes := concat (map (fun a => tag (a_ty a)) l).
+Definition targs_bytes (l : list targ) : bytes := concat (map (fun a => enc (a_ty a) (a_val a)) l).
+Definition targs_texts (l : list targ) : list bytes := map (fun a => text_of ft (a_ty a) (a_val a)) l.
+
+Theorem message_of_simple_args local tfmt cs : forall fuel fmt (args : list targ),
+  (length fmt < fuel)%nat -> count_ph fmt = length args -> Forall (targ_ok (print_struct cfg local tfmt cs)) args ->
+  message_loop ft cfg fuel local tfmt cs fmt (targs_tags args) (targs_bytes args) ts_init = (subst fmt (targs_texts args), true).
+Proof.
+  induction fuel as [|f IH]; intros fmt args Hl Hc Hok; [lia|].
+  destruct fmt as [|c r]; [reflexivity|].
+  cbn [subst count_ph] in *. destruct (N.eqb_spec c 123) as [->|Hne]; cbn [andb] in *.
+  - destruct r as [|d r'].
+    + rewrite ml_brace_end. destruct f; [cbn in Hl; lia|]. reflexivity.
+    + destruct (N.eqb_spec d 125) as [->|Hd].
+      * destruct args as [|[t v] args']; [discriminate|]. cbn [length] in Hc. injection Hc as Hc.
+        inversion Hok as [|? ? (Hwt & Hs & Hty & Hsh & Hpl & Hdp) Hok']; subst. cbn [a_ty a_val] in *.
+        cbn [message_loop]. unfold targs_tags, targs_bytes, targs_texts. cbn [map concat a_ty a_val].
+        rewrite (tag_pop_tag t _ Hty). rewrite (enc_is_documented v t Hwt).
+        assert (Hnu : t <> TUnit) by (intros ->; discriminate Hs).
+        rewrite (visit_agrees_gen (tag t) true (print_struct cfg local tfmt cs) v t false Hwt Hs Hnu Hty Hsh Hpl 2048%nat _ Hdp).
+        rewrite (tostring_value ft t v Hwt Hs).
+        fold (targs_tags args') (targs_bytes args') (targs_texts args').
+        rewrite (IH r' args') by (try assumption; cbn [length] in Hl; lia). reflexivity.
+      * rewrite ml_brace_other by exact Hd.
+        rewrite (IH (d :: r') args) by (try assumption; cbn [length] in *; lia). reflexivity.
+  - rewrite ml_other by exact Hne. rewrite (IH r args) by (try assumption; cbn [length] in *; lia). reflexivity.
+Qed.
+End MsgAny.
